@@ -25,6 +25,13 @@ def stabToGraph (a : Args) : String :=
   | .error e => s!"err {e}"
   | .ok adj => s!"ok a={adj.bits}"
 
+/-- stab.edges n= a=<bits>: the edge list `_graph_to_density_pure` applies its CZ gates along (`list(graph.edges)`) -/
+def edges (a : Args) : String :=
+  let n := getNat a "n"
+  let A := (BMat.ofRows n n (rowsOf n (get a "a"))).f
+  let es := edgesOf n A
+  s!"ok edges={if es.isEmpty then "-" else String.intercalate "," (es.map fun e => s!"{e.1}.{e.2}")}"
+
 /-! ### C10: result assembly of the alternate-target solver -/
 
 /-- `h:p,h:p,…` — for the class whose first (smallest) member is `h`, the member `list(s)[0]` the Python set yields first -/
@@ -90,6 +97,7 @@ def dispatch (cmd : String) (a : Args) : Option String :=
   match cmd with
   | "stab.tograph" => some (toGraph a)
   | "stab.s2g" => some (stabToGraph a)
+  | "stab.edges" => some (edges a)
   | "alt.dedup" => some (altDedup a)
   | "alt.relabel" => some (altRelabel a)
   | "alt.solve" => some (altSolve a)
